@@ -49,6 +49,10 @@ CLAIMED["C06"] = dict(engine="E2", technique="contracts 'helper output = exact s
     text="Proof over the reals, N=1,2,3: computeDeterminantDerivative / SecondDerivative and the deviator-determinant versions (stensor), st2tost2::dsquare, t2tost2::dCdF and dBdF (with C=F^T F, B=F F^T), t2tot2::tpld/tprd, and the tensor determinant first and second derivatives equal the derivative of the corresponding function for every argument. "
          "Eigen-tensor derivatives, Green-Lagrange and PK1 conversions are not yet under contract.",
     note=TB_E2 + " vsym's differentiation rules are trusted; derivative obligations have no double-precision replay (no-failing-input-found on failure).")
+CLAIMED["C10"] = dict(engine="E2", technique="contracts on the unmodified CubicRoots::exe/find_roots instantiated at a symbolic scalar (cube and square roots as constrained variables, every tolerance test a path split); SMT (QF_NRA) per path and clause, Cardano's formula through a chain of proved lemmas (cut rule)",
+    text="Proof over the reals of the exact cases the statement singles out, for every cubic with non-negligible leading coefficient: p=0 (one real root -cbrt(q), announced and among the returned values; triple root when q=0), q=0 (one root for p>0, three for p<0, all genuine), vanishing discriminant (simple and double root genuine), and the one-real-root Cardano branch (x1 is a root) for every (a1,a0) at three fixed (a3,a2) pairs; the count is always 1 or 3. "
+         "The three-distinct-real-roots trigonometric branch, the residual-vs-multiplicity accuracy statement and the Newton refinement `improve` are not covered.",
+    note=TB_E2 + " cos/sin/atan2 are uninterpreted (trigonometric branch out of reach); tolerance thresholds are exact only at zero over the reals, so inputs are kept away from them by the preconditions; Cardano's branch is symbolic in (a1,a0) only.")
 
 NOT_APPLICABLE = {
     "C03": "floating-point tolerance statement about iterative eigen-solvers (Jacobi/QL/Cardano with cos/acos); no contract within reach of CBMC-C or the real-arithmetic VC generator expresses it",
